@@ -267,7 +267,7 @@ func checkC18(p *Prog, r *Report) {
 	// srflx / relay: filter before construction
 	for _, name := range []string{"ice.NewCandidateServerReflexive", "ice.NewCandidateRelay"} {
 		for _, f := range p.AllFuncs {
-			if f.Pkg != p.Ice || f.Body == nil || !strings.HasPrefix(p.Pos(f.Body.Pos()), "gather.go") {
+			if f.Pkg != p.Ice || f.Body == nil || !strings.HasPrefix(f.Root().Name, "Agent.") {
 				continue
 			}
 			for _, c := range p.CallsTo(f, false, name) {
